@@ -70,7 +70,7 @@ def run(tier, v):
     wd = vlib.workdir(PID)
     vlib.build_harness()
     K = set(vlib.known_devs(PID))
-    fams = ["ver", "presence", "perm", "grease", "sizes", "big", "misc", "embed", "alpn", "lookalike", "recver"]
+    fams = ["ver", "presence", "perm", "grease", "sizes", "big", "misc", "embed", "alpn", "lookalike", "recver", "sni"]
     n = n_nontriv = states = trans = 0
     samples = []
     for fam in fams:
@@ -80,8 +80,9 @@ def run(tier, v):
             def sink(tag, o):
                 i = len(exp)
                 exp[i] = o
-                f.write(json.dumps({"id": 2 * i, "op": "hello", "bytes": o["bytes"]}) + "\n")
-                f.write(json.dumps({"id": 2 * i + 1, "op": "packets", "frames": [frame_for(o["bytes"])]}) + "\n")
+                f.write(json.dumps({"id": 3 * i, "op": "hello", "bytes": o["bytes"]}) + "\n")
+                f.write(json.dumps({"id": 3 * i + 1, "op": "packets", "frames": [frame_for(o["bytes"])]}) + "\n")
+                f.write(json.dumps({"id": 3 * i + 2, "op": "stateless", "frames": [frame_for(o["bytes"])]}) + "\n")
             r = vlib.tlc("MC_C04", pid=PID, workers=8, tag_sink=sink, env={"VERIF_FAM": fam}, timeout=1800)
         if r.inv_violated:
             raise vlib.ToolError("Ja4.tla violates one of its laws in family %s" % fam)
@@ -90,10 +91,10 @@ def run(tier, v):
         out = os.path.join(wd, "obs-%s.ndjson" % fam)
         vlib.run_hv("tls", vec, out)
         for o in vlib.read_ndjson(out):
-            e = exp[o["id"] // 2]
-            via = "packet" if o["id"] % 2 else "parse_tls_client_hello"
+            e = exp[o["id"] // 3]
+            via = ("parse_tls_client_hello", "packet", "one-packet front end (process_tls_ipv4)")[o["id"] % 3]
             n += 1
-            if via == "packet":
+            if via != "parse_tls_client_hello":
                 po = o["out"][0]
                 sig = po["out"]["sig"] if po["r"] == "some" else None
                 if sig is None:
@@ -137,7 +138,7 @@ def run(tier, v):
             v.violation({"family": fam, "via": via, "hello": bytes(e["bytes"]).hex(), "differences": bad, "matches_deviations": sorted(hit) if hit else None})
     return v.finish("model_checking", {
         "states": states, "transitions": trans, "traces_validated_against_impl": n,
-        "evaluations": n, "distinct_nontrivial": n_nontriv // 2,
+        "evaluations": n, "distinct_nontrivial": n_nontriv // 3,
         "rule": "hellos of MC_C04 (version table 8 legacy codes x 10 supported_versions lists; presence matrix of SNI/ALPN/groups/signature_algorithms/supported_versions; all 24x24 permutations of 4 ciphers and 4 extensions; "
                 "GREASE placements; list sizes 1/98/99/100/130; session ids, compression lists, unknown extension bodies), each through parse_tls_client_hello and through the packet-level analyzer; non-trivial = distinct hellos that yield a signature",
         "samples": samples or [{"note": "none drawn"}], "exhaustive": True,
